@@ -32,6 +32,7 @@ RULE = ('images of every CAMx binary format (uamiv AVERAGE/EMISSIONS/INSTANT/'
         'decoder in both directions. non-trivial = the image has >= 2 cells per field; '
         'distinct = digest of the image spec.')
 RULE += (" The gridded reader's TSTEP attribute must be the encoded length of the first averaging interval (steps ending on another day included).")
+RULE += (' Species names include tagged variants beside their base (O3 and O3_A, O3_1_X, O3_1_X_Z) in gridded and boundary files; a quarter of the hand-built writer sources hold float64 variables.')
 ASSUMPTIONS = [
     'the reference codecs were written from the CAMx User\'s Guide record '
     'layouts; a misreading of the format documents shared with the '
